@@ -412,6 +412,13 @@ func (R *Renderer) render(v ssa.Value) string {
 					continue
 				}
 			}
+			// an accumulator that starts as make([]T, 0, n) instead of a nil slice holds the same
+			// elements on every path: both start empty
+			if ms, ok := e.(*ssa.MakeSlice); ok {
+				if k, isConst := intConst(ms.Len); isConst && k == 0 {
+					pv = "nil"
+				}
+			}
 			parts = append(parts, pv)
 		}
 		sort.Strings(parts)
